@@ -72,6 +72,7 @@ func Step(v *vrt.Ctx) {
 		rs.Node(n, n, app.Code().Halt().Bytes())
 	}
 	rs.Node("tgt", "tgt", app.Code().Halt().Bytes())
+	rs.Node("elsewhere", "elsewhere", app.Code().Halt().Bytes())
 	rs.Node("_catch", "catch", app.Code().Halt().Bytes())
 
 	st := state.NewState(8)
@@ -104,7 +105,13 @@ func Step(v *vrt.Ctx) {
 		code = app.Code().Move(t).Bytes()
 	case 1:
 		st.SetInput([]byte("1"))
-		code = app.Code().InCmp(t, "1").Bytes()
+		c := app.Code().InCmp(t, "1")
+		if v.Choice("followed-by-a-catch-all", 2) == 1 {
+			// the usual last line of a menu: it must stay inert, the line
+			// above has decided the request (also when its move fails)
+			c.InCmp("elsewhere", "*")
+		}
+		code = c.Bytes()
 	case 2:
 		flag := 8 + uint32(v.Choice("flag", 8))
 		mode := v.Bool("mode")
